@@ -14,6 +14,10 @@ func ValueByTag(msg []byte, tag string) ([]byte, error) {
 	if start == -1 && !bytes.Equal(bytes.Join([][]byte{[]byte(tag)}, nil), msg[:len(tag)]) {
 		return nil, fmt.Errorf("the tag is not found: %s", tag)
 	}
+	if start == -1 && msg[len(tag)] != '=' {
+		// the message merely starts with the digits of the tag ("1008=" when looking for "1")
+		return nil, fmt.Errorf("the tag is not found: %s", tag)
+	}
 	start += len(tag) + 2
 	end := bytes.Index(msg[start:], []byte{1})
 	if end == -1 {
